@@ -1,5 +1,6 @@
 import AsynqModel.Lib.Decorators
 import AsynqModel.Proofs.Decorators
+import AsynqModel.Proofs.DecoratorsSib
 /-!
 # C09  All ways of calling an async function agree, for every kind of callable
 
@@ -7,6 +8,10 @@ Theorems about the model `AsynqModel.Decorators`: for EVERY cell of the finite t
 decorator kind x function type x access path x body kind (restricted by `supported` to the bindings each decorator
 is written for) and for ARBITRARY argument lists `a : Args` (any positional list, any keyword list).
 `Env.idle keyOf` = no deduplicated task in flight, for an arbitrary key function.
+`Env.quiet keyOf hashOf raises` = nothing in flight, nothing cached; arbitrary key function, arbitrary hashes of the
+argument values, returning or raising bodies.  The conventions that make a SECOND call of the same attribute
+(`sibling`, `siblingCall`, `prior`) have their own theorems (`C09_second_call*`, `C09_other_keys_irrelevant`,
+`C09_dict_hash_irrelevant`); `available` is false for them, so the one-call theorems do not speak about them.
 
 History: the check found that `@async_proxy(pure=True)` returned the function unmarked, so the helpers did not
 recognise it; that was repaired in the library (the decorator now sets `is_pure_async_fn` on the function, as
@@ -23,7 +28,8 @@ theorem C09_agree (c : Cell) (a : Args) (keyOf : Args → Args) (cv₁ cv₂ : C
     (h₁ : available c.kind cv₁ = true) (h₂ : available c.kind cv₂ = true) :
     (modelCv (Env.idle keyOf) c cv₁ a).res = (modelCv (Env.idle keyOf) c cv₂ a).res := by
   obtain ⟨k, ft, acc, bk⟩ := c
-  rw [modelCv_eq_ref k ft acc bk cv₁ a keyOf h, modelCv_eq_ref k ft acc bk cv₂ a keyOf h]
+  rw [modelCv_eq_ref k ft acc bk cv₁ a keyOf h (available_not_sib _ _ h₁),
+      modelCv_eq_ref k ft acc bk cv₂ a keyOf h (available_not_sib _ _ h₂)]
   cases k <;> cases cv₁ <;> cases cv₂ <;> first | rfl | (simp [available, Kind.hasAsynq] at h₁ h₂)
 
 /-- **exactly one, correct receiver; the caller's arguments unchanged**: each available asynchronous convention
@@ -39,7 +45,7 @@ theorem C09_receiver (c : Cell) (a : Args) (keyOf : Args → Args) (cv : Cv)
               c.kind.userWrapped⟩ ∧
       (refPrefix c.ft c.acc 0 ++ explicitSelf c.ft c.acc 0).length = (if hasRecvParam c.ft c.acc then 1 else 0) := by
   obtain ⟨k, ft, acc, bk⟩ := c
-  rw [modelCv_eq_ref k ft acc bk cv a keyOf h]
+  rw [modelCv_eq_ref k ft acc bk cv a keyOf h (available_not_sib _ _ hv)]
   constructor
   · cases k <;> cases cv <;> first | rfl | (simp [available, Kind.hasAsynq] at hv)
   · cases ft <;> cases acc <;> rfl
@@ -52,7 +58,7 @@ theorem C09_sync (c : Cell) (a : Args) (keyOf : Args → Args) (cv : Cv)
     modelCv (Env.idle keyOf) c cv a =
       ⟨[], .val ⟨if c.kind.hasSyncFn then 2 else 1, refArgs c.ft c.acc 0 a, c.kind.userWrapped⟩, c.kind.pureLike⟩ := by
   obtain ⟨k, ft, acc, bk⟩ := c
-  rw [modelCv_eq_ref k ft acc bk cv a keyOf h]
+  rw [modelCv_eq_ref k ft acc bk cv a keyOf h (by rcases hv with rfl | rfl <;> rfl)]
   rcases hv with rfl | rfl <;> cases k <;> rfl
 
 /-- **the conventions that do not go through a helper** (`.asynq(...).value()`, yielding it, with a twin in flight)
@@ -63,7 +69,7 @@ theorem C09_direct (c : Cell) (a : Args) (keyOf : Args → Args) (cv : Cv)
     (modelCv (Env.idle keyOf) c cv a).res =
       (if c.kind.hasAsynq then .val ⟨1, refArgs c.ft c.acc 0 a, c.kind.userWrapped⟩ else .err .noAsynq) := by
   obtain ⟨k, ft, acc, bk⟩ := c
-  rw [modelCv_eq_ref k ft acc bk cv a keyOf h]
+  rw [modelCv_eq_ref k ft acc bk cv a keyOf h (by rcases hv with rfl | rfl | rfl <;> rfl)]
   rcases hv with rfl | rfl | rfl <;> cases k <;> rfl
 
 /-- **same outcome**: whatever the body's parameter list `s` (ANY signature) and whether it returns or raises, all
@@ -78,11 +84,12 @@ theorem C09_outcome_agree (c : Cell) (a : Args) (keyOf : Args → Args) (s : Sig
         (obsOf s raises cv₁ (modelCv (Env.idle keyOf) c cv₁ a)).log =
           (obsOf s raises cv₂ (modelCv (Env.idle keyOf) c cv₂ a)).log) := by
   obtain ⟨k, ft, acc, bk⟩ := c
-  rw [modelCv_eq_ref k ft acc bk cv₁ a keyOf h, modelCv_eq_ref k ft acc bk cv₂ a keyOf h]
+  rw [modelCv_eq_ref k ft acc bk cv₁ a keyOf h (available_not_sib _ _ h₁),
+      modelCv_eq_ref k ft acc bk cv₂ a keyOf h (available_not_sib _ _ h₂)]
   cases k <;> cases cv₁ <;> cases cv₂ <;>
     first
     | (simp [available, Kind.hasAsynq] at h₁ h₂; done)
-    | (constructor <;> simp [obsOf, refCv, Kind.hasAsynq])
+    | (constructor <;> simp [obsOf, refCv, refCvRun, Cv.isSib, Kind.hasAsynq])
 
 /-- **what `__get__` returns**: a decorated staticmethod (and a module-level function) is the decorator itself; any
     other decorated attribute is a binder holding exactly the receiver Python would bind (the instance, the class
@@ -201,48 +208,148 @@ theorem C09_receiver_per_access (k : Kind) (ft : FnType) (bk : BodyKind) (accs :
   intro acc hacc
   exact modelRecv_eq_ref k ft acc bk (h acc hacc)
 
+/-! ## a second call of the same attribute: other receiver, other argument objects, colliding hashes -/
+
+/-- **a dict lookup never confuses two keys because their hashes collide**: what `DeduplicateDecorator.tasks[key]`
+    and the caches find does not depend on the hash function at all - for ARBITRARY hash functions `h`, `h'`
+    (in particular a constant one: every two keys collide) -/
+theorem C09_dict_hash_irrelevant (h h' : Nat → Nat) (l : Table) (k : Nat × Args) :
+    dictFind h l k = dictFind h' l k := by
+  rw [dictFind_eq, dictFind_eq]
+
+/-- **a second call of the same decorated attribute does not change what a call reaches**: with another call of
+    the SAME attribute in flight in the same yield (`sibling`, through `async_call`: `siblingCall`) or completed /
+    failed just before (`prior`) - made through another receiver (a second instance of the class, the other class of
+    the hierarchy for a classmethod: `rel = .recv`) or with every argument replaced by another object
+    (`rel = .args`) - each of the two calls runs the async body with ITS OWN receiver and ITS OWN arguments.
+    For every cell, ARBITRARY argument lists, ARBITRARY hashes of the values (`hf`: all of them may collide),
+    returning or raising bodies, and every key function that separates the two calls. -/
+theorem C09_second_call (c : Cell) (a : Args) (rel : Rel) (cv : Cv) (keyOf : Args → Args) (hf : Nat → Nat) (rs : Bool)
+    (h : supported c.kind c.ft c.acc = true) (hcv : cv.isSib = true)
+    (hne : identicalSib c.ft c.acc rel a = false)
+    (hkey : keyOf (refArgsSib c.ft c.acc rel a) ≠ keyOf (refArgs c.ft c.acc 0 a)) :
+    modelCv (Env.quiet keyOf hf rs) c cv a rel =
+      (if availableSib c.kind cv then
+         ⟨[.val ⟨1, refArgsSib c.ft c.acc rel a, c.kind.userWrapped⟩],
+          .val ⟨1, refArgs c.ft c.acc 0 a, c.kind.userWrapped⟩, false⟩
+       else ⟨[.err .noAsynq], .err .noAsynq, false⟩) := by
+  obtain ⟨k, ft, acc, bk⟩ := c
+  unfold modelCv
+  simp only [hcv, hne, Bool.and_false, Bool.false_eq_true, if_false]
+  rw [modelCvRun_sib_eq_ref k ft acc bk cv a keyOf hf rs rel h hcv hkey]
+  cases cv <;> first | (simp [Cv.isSib] at hcv; done) | (cases k <;> rfl)
+
+/-- the same for the library's own key function on same-spelled calls (the identity on the bound arguments):
+    the two calls are separated as soon as the second is not literally the first (`identicalSib`) -/
+theorem C09_second_call_default_key (c : Cell) (a : Args) (rel : Rel) (cv : Cv) (hf : Nat → Nat) (rs : Bool)
+    (h : supported c.kind c.ft c.acc = true) (hcv : cv.isSib = true)
+    (hne : identicalSib c.ft c.acc rel a = false) :
+    modelCv (Env.quiet id hf rs) c cv a rel =
+      (if availableSib c.kind cv then
+         ⟨[.val ⟨1, refArgsSib c.ft c.acc rel a, c.kind.userWrapped⟩],
+          .val ⟨1, refArgs c.ft c.acc 0 a, c.kind.userWrapped⟩, false⟩
+       else ⟨[.err .noAsynq], .err .noAsynq, false⟩) :=
+  C09_second_call c a rel cv id hf rs h hcv hne (refArgsSib_ne c.ft c.acc rel a hne)
+
+/-- the second call of relation `recv` really has ANOTHER receiver, the observed call keeps its own: the first
+    argument the two bodies receive differs, the rest is the caller's argument list -/
+theorem C09_second_call_receivers (ft : FnType) (acc : Access) (a : Args) (h : hasRecvParam ft acc = true) :
+    ∃ r r', r ≠ r' ∧ (refArgs ft acc 0 a).pos = r :: a.pos ∧ (refArgsSib ft acc .recv a).pos = r' :: a.pos := by
+  cases ft <;> cases acc <;> first
+    | (simp [hasRecvParam] at h; done)
+    | exact ⟨_, _, by decide, rfl, rfl⟩
+
+/-- **whatever else is in flight or cached** - ARBITRARY in-flight table, ARBITRARY cache, ARBITRARY key function
+    and hashes: as long as no entry sits under the key of this very call, `.asynq(...)` and `async_call` of every
+    callable that has `.asynq` are a future of its own body with its own receiver and arguments (generalises
+    `C09_dedup_own_body` to entries of the SAME function under other keys and to the caches of alru_cache /
+    acached_per_instance) -/
+theorem C09_other_keys_irrelevant (c : Cell) (a : Args) (env : Env)
+    (h : supported c.kind c.ft c.acc = true) (hk : c.kind.hasAsynq = true)
+    (ht : ∀ e ∈ env.tasks, e.1 ≠ (1, env.keyOf (refArgs c.ft c.acc 0 a)))
+    (hc : ∀ e ∈ env.cache, e.1 ≠ (1, env.keyOf (refArgs c.ft c.acc 0 a))) :
+    app env .asynq c.callable (callerArgs c.ft c.acc 0 a) = .fut ⟨1, refArgs c.ft c.acc 0 a, c.kind.userWrapped⟩ ∧
+    asyncCall env c.callable (callerArgs c.ft c.acc 0 a) = .fut ⟨1, refArgs c.ft c.acc 0 a, c.kind.userWrapped⟩ := by
+  obtain ⟨k, ft, acc, bk⟩ := c
+  have h1 := asynq_other_keys k ft acc bk a env h hk ht hc
+  refine ⟨h1, ?_⟩
+  have hc := modelCls_eq_ref k ft acc bk h
+  simp only [modelCls, refCls, Cls.mk.injEq] at hc
+  obtain ⟨-, h2, h3, -, -⟩ := hc
+  simp only [hasAsyncFn] at h3
+  have hp : k.pureLike = false := by cases k <;> first | rfl | (simp [Kind.hasAsynq] at hk)
+  simp only [asyncCall, h2, h3, hp, hk]
+  exact h1
+
 /-! ## non-vacuity -/
 
 /-- a classmethod fetched through an instance of the subclass, called with a positional, a keyword-only and an
     unknown keyword argument - the instance being falsy, after look-ups through the base class and one of its
     instances: the body sees the SUBCLASS once, then the arguments -/
 example :
-    (modelReport ⟨⟨.pair, .classm, .subInst, .gen⟩, false, .mixed, ⟨[30, 31, 32], [(3, 40), (5, 41)]⟩, true, [.cls, .inst]⟩).obs.head? =
+    (modelReport ⟨⟨.pair, .classm, .subInst, .gen⟩, false, .mixed, ⟨[30, 31, 32], [(3, 40), (5, 41)]⟩, true, [.cls, .inst], .args, .tok⟩).obs.head? =
       some ⟨.sync, [⟨2, [4, 30, 31, 0, 32, 0, 40, 0, 5, 41], true⟩], .ok 2 false, false⟩ := by decide
 
 example :
-    ((modelReport ⟨⟨.dedup, .plain, .cls, .batch⟩, true, .fixed, ⟨[30], [(2, 31)]⟩, false, []⟩).obs.getLast?).map (·.log.map (·.body)) =
-      some [3, 1] := by decide
+    (((modelReport ⟨⟨.dedup, .plain, .cls, .batch⟩, true, .fixed, ⟨[30], [(2, 31)]⟩, false, [], .args, .tok⟩).obs.find?
+        (fun o => o.cv == .twin)).map (·.log.map (·.body))) = some [3, 1] := by decide
 
 /-- binding errors are outcomes too, the same for every convention -/
 example :
-    (modelReport ⟨⟨.mad, .static, .inst, .plain⟩, false, .fixed, ⟨[30, 31, 32], []⟩, false, []⟩).obs.map (·.out) =
-      List.replicate 10 (.raised .typeError) := by decide
+    (modelReport ⟨⟨.mad, .static, .inst, .plain⟩, false, .fixed, ⟨[30, 31, 32], []⟩, false, [], .args, .tok⟩).obs.map (·.out) =
+      List.replicate 13 (.raised .typeError) := by decide
 
 /-- the predicate is not trivially true: it rejects the observations a pair decorator would produce if `__get__`
     forgot to re-wrap a staticmethod (the instance is prepended on the async side only) ... -/
 example :
-    spec ⟨⟨.pair, .static, .inst, .plain⟩, false, .var, ⟨[30], []⟩, false, []⟩
-      { modelReport ⟨⟨.pair, .static, .inst, .plain⟩, false, .var, ⟨[30], []⟩, false, []⟩ with
-        obs := (modelReport ⟨⟨.pair, .static, .inst, .plain⟩, false, .var, ⟨[30], []⟩, false, []⟩).obs.map fun o =>
+    spec ⟨⟨.pair, .static, .inst, .plain⟩, false, .var, ⟨[30], []⟩, false, [], .args, .tok⟩
+      { modelReport ⟨⟨.pair, .static, .inst, .plain⟩, false, .var, ⟨[30], []⟩, false, [], .args, .tok⟩ with
+        obs := (modelReport ⟨⟨.pair, .static, .inst, .plain⟩, false, .var, ⟨[30], []⟩, false, [], .args, .tok⟩).obs.map fun o =>
           if o.cv = .asynqValue then { o with log := [⟨1, [0, 1, 30, 0, 0], true⟩] } else o } = false := by decide
 
 /-- the regression case of the repaired defect: a module-level `@async_proxy(pure=True)` function is accepted ... -/
 example :
-    spec ⟨⟨.proxyPure, .plain, .direct, .plain⟩, false, .fixed, ⟨[30], []⟩, false, []⟩
-      (modelReport ⟨⟨.proxyPure, .plain, .direct, .plain⟩, false, .fixed, ⟨[30], []⟩, false, []⟩) = true := by decide
+    spec ⟨⟨.proxyPure, .plain, .direct, .plain⟩, false, .fixed, ⟨[30], []⟩, false, [], .args, .tok⟩
+      (modelReport ⟨⟨.proxyPure, .plain, .direct, .plain⟩, false, .fixed, ⟨[30], []⟩, false, [], .args, .tok⟩) = true := by decide
 
 /-- ... and what the unrepaired code produced (a future object out of `async_call`) is rejected -/
 example :
-    spec ⟨⟨.proxyPure, .plain, .direct, .plain⟩, false, .fixed, ⟨[30], []⟩, false, []⟩
-      { modelReport ⟨⟨.proxyPure, .plain, .direct, .plain⟩, false, .fixed, ⟨[30], []⟩, false, []⟩ with
-        obs := (modelReport ⟨⟨.proxyPure, .plain, .direct, .plain⟩, false, .fixed, ⟨[30], []⟩, false, []⟩).obs.map fun o =>
+    spec ⟨⟨.proxyPure, .plain, .direct, .plain⟩, false, .fixed, ⟨[30], []⟩, false, [], .args, .tok⟩
+      { modelReport ⟨⟨.proxyPure, .plain, .direct, .plain⟩, false, .fixed, ⟨[30], []⟩, false, [], .args, .tok⟩ with
+        obs := (modelReport ⟨⟨.proxyPure, .plain, .direct, .plain⟩, false, .fixed, ⟨[30], []⟩, false, [], .args, .tok⟩).obs.map fun o =>
           if o.cv = .asyncCall then { o with out := .gotFuture } else o } = false := by decide
 
 /-- ... and a helper that misclassifies -/
 example :
-    spec ⟨⟨.pure, .plain, .inst, .plain⟩, false, .var, ⟨[], []⟩, false, []⟩
-      { modelReport ⟨⟨.pure, .plain, .inst, .plain⟩, false, .var, ⟨[], []⟩, false, []⟩ with
+    spec ⟨⟨.pure, .plain, .inst, .plain⟩, false, .var, ⟨[], []⟩, false, [], .args, .tok⟩
+      { modelReport ⟨⟨.pure, .plain, .inst, .plain⟩, false, .var, ⟨[], []⟩, false, [], .args, .tok⟩ with
         cls := ⟨true, false, false, .self, .self⟩ } = false := by decide
+
+/-- a deduplicated method with a second call in flight whose arguments are OTHER built-in ints with the SAME hashes:
+    both bodies run, each with its own arguments (second call first: it was created first) ... -/
+example :
+    (((modelReport ⟨⟨.dedup, .plain, .inst, .gen⟩, false, .fixed, ⟨[30], [(3, 32)]⟩, false, [], .args, .bigint⟩).obs.find?
+        (fun o => o.cv == .sibling)).map (·.log.map (·.seen))) =
+      some [[1, 130, 20, 0, 0, 132, 0], [1, 30, 20, 0, 0, 32, 0]] := by decide
+
+/-- ... and the observations of an implementation that keys the in-flight table by the HASH of the arguments (the
+    observed call is handed the task of the second call: only that body runs) are rejected -/
+example :
+    spec ⟨⟨.dedup, .plain, .inst, .gen⟩, false, .fixed, ⟨[30], [(3, 32)]⟩, false, [], .args, .bigint⟩
+      { modelReport ⟨⟨.dedup, .plain, .inst, .gen⟩, false, .fixed, ⟨[30], [(3, 32)]⟩, false, [], .args, .bigint⟩ with
+        obs := (modelReport ⟨⟨.dedup, .plain, .inst, .gen⟩, false, .fixed, ⟨[30], [(3, 32)]⟩, false, [], .args, .bigint⟩).obs.map fun o =>
+          if o.cv = .sibling then { o with log := o.log.take 1 } else o } = false := by decide
+
+/-- an `acached_per_instance` method called through a SECOND instance first (all receivers hash alike): the cache of
+    the first instance is still cold, both bodies run, each with its own instance -/
+example :
+    (((modelReport ⟨⟨.acpi, .plain, .inst, .plain⟩, false, .var, ⟨[30], []⟩, false, [], .recv, .chash⟩).obs.find?
+        (fun o => o.cv == .prior)).map (·.log.map (·.seen))) =
+      some [[9, 0, 30, 0, 0], [1, 0, 30, 0, 0]] := by decide
+
+/-- the conventions with a second call are skipped exactly when that call would be the observed call itself -/
+example :
+    ((modelReport ⟨⟨.dedup, .plain, .direct, .plain⟩, false, .var, ⟨[], []⟩, false, [], .recv, .tok⟩).obs.filter
+        (fun o => o.cv.isSib)).map (·.out) = List.replicate 3 (.raised .skipped) := by decide
 
 end AsynqModel.Decorators
